@@ -17,7 +17,7 @@ ASSUMPTIONS = [
     "recursively and in order",
     "comparing a node with itself is outside the statement ('two distinct trees')",
 ]
-REQUIRED = ["pairs_equal", "pairs_different", "difference_at_child_position_ge1", "difference_at_depth_ge2", "symmetric_checked"]
+REQUIRED = ["pairs_with_identical_ids", "pairs_equal", "pairs_different", "difference_at_child_position_ge1", "difference_at_depth_ge2", "symmetric_checked"]
 EXHAUSTIVE = {"quick": False, "thorough": False}
 
 KINDS = ("name", "content", "content_none", "tail", "prefix", "attr_add", "attr_del", "attr_val", "extras_add", "extras_val",
@@ -26,7 +26,7 @@ KINDS = ("name", "content", "content_none", "tail", "prefix", "attr_add", "attr_
 
 def plan(tier, seed):
     if tier == "quick":
-        return [{"trees": 500}]
+        return [{"trees": 380}]
     return [{"trees": 3500, "salt": i} for i in range(16)]
 
 
@@ -145,12 +145,43 @@ def sweep(ctx, t, exhaustive):
     todo = [(i, k) for i in range(len(order)) for k in KINDS]
     if not exhaustive:
         todo = ctx.rng.sample(todo, min(len(todo), 40))
-    for idx, kind in todo:
-        c = t.copy()
-        target = snapshot.walk(c)[idx]
+    from metapype.model import metapype_io
+    for j, (idx, kind) in enumerate(todo):
+        variant = j % 3
+        if variant == 0:
+            a, c = t, t.copy()                      # the difference is introduced in the copy
+            target = snapshot.walk(c)[idx]
+        elif variant == 1:
+            a = snapshot.from_plain(Node, plain)    # ... or in the original, after the copy was taken
+            c = a.copy()
+            a, c = c, a
+            target = snapshot.walk(c)[idx]
+        else:
+            a = t                                   # ... or in a JSON reload, which carries the same node ids
+            try:
+                c = metapype_io.from_json(metapype_io.to_json(t))
+            except Exception:
+                continue
+            target = snapshot.walk(c)[idx] if idx < len(snapshot.walk(c)) else c
+            ctx.count("pairs_with_identical_ids")
+            if j < 3:
+                ask(ctx, a, c, lambda: {"tree": plain, "kind": "json-reload", "other": snapshot.to_plain(c)}, "json-reload")
+        v_before = snapshot.value(c)
         if not apply_difference(ctx.rng, target, kind):
-            emlkit.discard(c)
+            if c is not t:
+                emlkit.discard(c)
             continue
+        if snapshot.value(c) != v_before and (variant == 1 or snapshot.value(a) == v_before):
+            # (for variant 1 the other side cannot be read independently if the edit leaked: it was built as an equal copy)
+            # one side was really edited, the other one was not touched: whatever the two trees look like now, they must not
+            # compare equal (an edit that leaks into the other tree keeps them "equal")
+            try:
+                if Node.is_equal(a, c) or Node.is_equal(c, a):
+                    ctx.violation(f"equal-after-one-side-was-edited|{kind}", f"{kind} was applied to one tree only, is_equal still answers True "
+                                                                             f"(variant {variant}: 0 copy edited, 1 original edited, 2 JSON reload edited)",
+                                  {"tree": snapshot.to_plain(a), "node_index": idx, "kind": kind, "other": snapshot.to_plain(c)})
+            except Exception:
+                pass
         d, pos = position_of(c, target)
         if pos >= 1 or (kind.startswith("child") and len(target.children) >= 2):
             ctx.count("difference_at_child_position_ge1")
@@ -162,10 +193,18 @@ def sweep(ctx, t, exhaustive):
         hd[str(min(d, 6))] = hd.get(str(min(d, 6)), 0) + 1
         hp = ctx.cover.setdefault("differences_by_child_position", {})
         hp[str(min(pos, 4))] = hp.get(str(min(pos, 4)), 0) + 1
-        ask(ctx, t, c, lambda: {"tree": plain, "node_index": idx, "kind": kind, "other": snapshot.to_plain(c)},
+        ask(ctx, a, c, lambda: {"tree": snapshot.to_plain(a), "node_index": idx, "kind": kind, "other": snapshot.to_plain(c)},
             f"{kind}@depth{d}/pos{pos}")
-        ctx.distinct((snapshot.value(t), idx, kind))
-        emlkit.discard(c)
+        ctx.distinct((snapshot.value(t), idx, kind, variant))
+        if variant == 2:
+            # the reload re-registered t's ids; restore the registry entries of t (harness hygiene)
+            for x in snapshot.walk(t):
+                Node.set_node_instance(x)
+        elif variant == 1:
+            emlkit.discard(a)
+            emlkit.discard(c)
+        else:
+            emlkit.discard(c)
 
 
 def run(ctx, params):
